@@ -767,12 +767,113 @@ Proof.
   - intros d. rewrite Hb. unfold donations. lia.
 Qed.
 
+(* ---- messages of other bridges and bridge creation: isolation ---- *)
+Require Proofs.L1DepLemmas.
+
+Definition donation_at (o : option (bytes * Z)) (d : bytes) : Z :=
+  match o with Some x => if bool_decide (x.1 = d) then x.2 else 0%Z | None => 0%Z end.
+
+Lemma other_handle_spec c e s1 m s1' r :
+  other_ok c m = true → L1.handle (c1 c) e s1 m = Some (s1', r) →
+  bevents c s1' = bevents c s1 ∧ L1.seq_of s1' (bid c) = L1.seq_of s1 (bid c) ∧
+  (∀ x, (bid c, x) ∈ L1.proven s1' ↔ (bid c, x) ∈ L1.proven s1) ∧
+  (∀ d, getb (L1.bk s1') (escrow_of c) d =
+        (getb (L1.bk s1) (escrow_of c) d + donation_at (other_donation c m) d)%Z) ∧
+  (∀ x, other_donation c m = Some x → (0 < x.2)%Z).
+Proof.
+  intros Hok Hh. destruct m; try discriminate; cbn [L1.handle] in Hh; cbn [other_ok] in Hok; cbn [other_donation donation_at].
+  - (* create *)
+    apply andb_true_iff in Hok as [Hc Hp]. apply negb_true_iff, bool_decide_eq_false in Hc, Hp.
+    apply L1DepLemmas.create_Some in Hh as (cr & Hcr & _ & Hfee & _ & _ & Hsq & _ & _ & Hpr & _ & _ & _ & _ & Hel & _).
+    split; [by apply bevents_same|]. split; [by apply seq_of_same|]. split; [by rewrite Hpr|]. split; [|done].
+    intros d. rewrite (L1DepLemmas.fee_loop_other _ _ _ _ _ Hfee); [lia| |]; unfold escrow_of in *; congruence.
+  - (* propose *)
+    apply l1_propose_effect in Hh as (Hb & Hel & Hsq & Hpr).
+    split; [by apply bevents_same|]. split; [by apply seq_of_same|]. split; [by rewrite Hpr|]. split; [|done].
+    intros d. rewrite Hb. lia.
+  - (* delete *)
+    apply l1_delete_effect in Hh as (Hb & Hel & Hsq & Hpr).
+    split; [by apply bevents_same|]. split; [by apply seq_of_same|]. split; [by rewrite Hpr|]. split; [|done].
+    intros d. rewrite Hb. lia.
+  - (* deposit into another bridge *)
+    apply andb_true_iff in Hok as [Hok He]. apply andb_true_iff in Hok as [Hb Hs].
+    apply negb_true_iff in Hb, Hs, He. apply N.eqb_neq in Hb. apply bool_decide_eq_false in Hs, He.
+    apply L1DepLemmas.deposit_Some in Hh as (sd & Hsd & _ & _ & _ & _ & _ & _ & Hbk & _ & _ & Hsq & _ & _ & Hpr & _ & _ & _ & _ & _ & Hel & _).
+    split; [|split; [|split; [by rewrite Hpr|split; [|done]]]].
+    + unfold bevents. rewrite Hel. rewrite filter_cons_False; [done|]. cbn. congruence.
+    + unfold L1.seq_of. rewrite Hsq. by rewrite lookup_insert_ne.
+    + intros d0. destruct (0 <? amt)%Z.
+      * apply bank_send_Some in Hbk as (_ & _ & Hg). rewrite Hg. unfold escrow_of in *.
+        rewrite decide_False by congruence. rewrite decide_False by congruence. lia.
+      * injection Hbk as <-. lia.
+  - (* claim on another bridge *)
+    apply andb_true_iff in Hok as [Hb He]. apply negb_true_iff in Hb, He. apply N.eqb_neq in Hb. apply bool_decide_eq_false in He.
+    apply L1DepLemmas.finalize_Some in Hh as (rcv & Hrcv & _ & _ & Hamt & _ & _ & _ & _ & _ & Hbk & _ & _ & Hsq & _ & _ & Hpr & _ & _ & _ & _ & _ & Hel & _).
+    split; [by apply bevents_same|]. split; [by apply seq_of_same|]. split; [|split].
+    + intros x. rewrite Hpr. split; [|set_solver]. intros [Hx|Hx]%elem_of_union; [|done].
+      apply elem_of_singleton in Hx. injection Hx as ? _. congruence.
+    + intros d0. apply bank_send_Some in Hbk as (_ & _ & Hg). rewrite Hg. unfold escrow_of in *.
+      rewrite decide_False by congruence. rewrite Hrcv. case_bool_decide as Hr.
+      * injection Hr as ->. cbn [donation_at fst snd].
+        assert (Hc : d = d0 ∨ d ≠ d0) by (destruct (decide (d = d0)); auto). destruct Hc as [->|Hne].
+        -- rewrite decide_True by done. rewrite bool_decide_eq_true_2 by done. lia.
+        -- rewrite decide_False by congruence. rewrite bool_decide_eq_false_2 by done. lia.
+      * rewrite decide_False by congruence. cbn. lia.
+    + intros x. case_bool_decide; [|discriminate]. intros [= <-]. cbn. lia.
+Qed.
+
+Lemma inv_l1_update' c s s1 (dn : list (bytes * Z)) :
+  bevents c s1 = bevents c (l1 s) → L1.seq_of s1 (bid c) = L1.seq_of (l1 s) (bid c) →
+  (∀ x, (bid c, x) ∈ L1.proven (l1 s) → (bid c, x) ∈ L1.proven s1) →
+  (∀ d, (getb (L1.bk s1) (escrow_of c) d - getb (L1.bk (l1 s)) (escrow_of c) d =
+         zsum (λ x : bytes * Z, if bool_decide (x.1 = d) then x.2 else 0%Z) dn - donations s d)%Z) →
+  inv c s → inv c {| l1 := s1; l2 := l2 s; paid := paid s; donated := dn |}.
+Proof.
+  intros Hel Hsq Hpr Hbal [I1 I2 I3 I4 I5 I6 I7 I8]. split; cbn.
+  - intros d. destruct (I1 d) as [I1d|Hc]; [left|by right]. clear I1.
+    specialize (Hbal d). unfold solvent, pending_dep, pending_wd, donations in *. cbn in *.
+    rewrite Hel. lia.
+  - done.
+  - by rewrite Hel.
+  - rewrite Hel, Hsq. done.
+  - by rewrite Hsq.
+  - done.
+  - done.
+  - intros m Hm. destruct (I8 m Hm) as (w & ? & ? & ?). exists w. split; [done|split; [done|]]. by apply Hpr.
+Qed.
+
+Lemma step_other c s e m : inv c s → inv c (sys_step c s (SOther e m)).1.
+Proof.
+  intros I. cbn [sys_step]. destruct (other_ok c m) eqn:Hok; [|done]. unfold lift1, L1.step.
+  destruct (L1.handle (c1 c) e (l1 s) m) as [[s1 r]|] eqn:Hh; [|done]. cbn [fst set_l1].
+  destruct (other_handle_spec c e (l1 s) m s1 r Hok Hh) as (Hel & Hsq & Hpr & Hbal & Hpos).
+  destruct (other_donation c m) as [x|] eqn:Hd; cbn [l1 l2 paid donated].
+  - apply (inv_l1_update' c s s1 (x :: donated s)); auto; [intros y; apply Hpr|].
+    intros d. rewrite Hbal. unfold donations, donation_at. cbn [zsum]. lia.
+  - apply (inv_l1_update' c s s1 (donated s)); auto; [intros y; apply Hpr|].
+    intros d. rewrite Hbal. unfold donations, donation_at. lia.
+Qed.
+
+(* what a step of another bridge / a bridge creation leaves alone *)
+Lemma other_step_spec c s e m :
+  let r := sys_step c s (SOther e m) in
+  l2 r.1 = l2 s ∧ paid r.1 = paid s ∧
+  (r.1 = s ∨
+   ∃ s1 rr, other_ok c m = true ∧ L1.handle (c1 c) e (l1 s) m = Some (s1, rr) ∧ l1 r.1 = s1 ∧
+            donated r.1 = match other_donation c m with Some x => x :: donated s | None => donated s end).
+Proof.
+  cbn zeta. cbn [sys_step]. destruct (other_ok c m) eqn:Hok; [|auto]. unfold lift1, L1.step.
+  destruct (L1.handle (c1 c) e (l1 s) m) as [[s1 rr]|] eqn:Hh; [|cbn; auto]. cbn [fst set_l1].
+  destruct (other_donation c m) as [x|] eqn:Hd; cbn; (split; [done|split; [done|right]]); exists s1, rr; rewrite ?Hd; done.
+Qed.
+
+
 (* ------------------------------------------------------------------------------------ *)
 (* 6. the theorems                                                                         *)
 (* ------------------------------------------------------------------------------------ *)
 Lemma step_inv c s m : inv c s → inv c (sys_step c s m).1.
 Proof.
-  intros I. destruct m as [e sender to d amt data|e from to d amt|m2|k ex h hook|e p idx l2b lo hi v bh|e ch idx|e sender idx m lo hi v bh|e m1].
+  intros I. destruct m as [e sender to d amt data|e from to d amt|m2|k ex h hook|e p idx l2b lo hi v bh|e ch idx|e sender idx m lo hi v bh|e m1|e mo].
   - by apply step_deposit.
   - by apply step_send1.
   - by apply step_l2.
@@ -781,6 +882,7 @@ Proof.
   - cbn [sys_step]. apply step_propose_delete; [|done]. right. eauto.
   - by apply step_claim.
   - by apply step_admin1.
+  - by apply step_other.
 Qed.
 
 Lemma run_inv c h : ∀ s, inv c s → inv c (sys_run c s h).
